@@ -22,7 +22,7 @@ import json
 import os
 import typing as t
 
-_STATE: t.Dict[str, t.Any] = {"depth": 0, "objs": [], "events": {}, "test": ""}
+_STATE: t.Dict[str, t.Any] = {"depth": 0, "objs": [], "events": {}, "test": "", "custom": set()}
 NOTICE = "1.3.6.1.4.1.1466.20036"
 
 CLIENT_SENDS = {"bind": "bindReq", "bind_simple": "bindReq", "bind_sasl": "bindReq", "extended_request": "extReq", "search_request": "searchReq"}
@@ -45,6 +45,26 @@ def _dig(m: t.Any) -> str:
         return hashlib.blake2b(json.dumps(proj.to_abstract(m), sort_keys=True).encode(), digest_size=8).hexdigest()
     except Exception:  # noqa: BLE001  custom classes of the tests: fall back to the value's repr
         return hashlib.blake2b(repr(m).encode(), digest_size=8).hexdigest()
+
+
+def _has_custom(obj: t.Any, depth: int = 0) -> bool:
+    """Does a call argument contain an application-defined filter / control / credential (a class from outside the
+    library)?  Its encoding is outside the RFC 4511 reference decoder."""
+    import dataclasses
+
+    import sansldap
+
+    if depth > 8 or obj is None or isinstance(obj, (str, bytes, bytearray, int, bool)):
+        return False
+    if isinstance(obj, (list, tuple)):
+        return any(_has_custom(x, depth + 1) for x in obj)
+    if isinstance(obj, dict):
+        return any(_has_custom(x, depth + 1) for x in obj.values())
+    if isinstance(obj, (sansldap.LDAPFilter, sansldap.LDAPControl, sansldap.AuthenticationCredential)) and not type(obj).__module__.startswith("sansldap"):
+        return True
+    if dataclasses.is_dataclass(obj) and not isinstance(obj, type):
+        return any(_has_custom(getattr(obj, f.name, None), depth + 1) for f in dataclasses.fields(obj))
+    return False
 
 
 def _role(s: t.Any) -> str:
@@ -145,7 +165,8 @@ def _wrap(cls: t.Any, name: str) -> None:
                                 k = "bindRespProg" if int(getattr(code, "value", code) or 0) == 14 else "bindRespOk"
                             elif k == "extResp" and str(getattr(args.get("name"), "value", args.get("name"))) == NOTICE:
                                 k = "notice"
-                    e = {"ev": "unbind" if name == "unbind" else "send", "k": k, "id": mid, "res": res, "ret": _small(ret) if exc is None and ret is not None else 0,
+                    custom = _has_custom(list(a)) or _has_custom(kw)
+                    e = {"ev": "unbind" if name == "unbind" else "send", "custom": custom, "k": k, "id": mid, "res": res, "ret": _small(ret) if exc is None and ret is not None else 0,
                          "emitted": _L(emitted), "exc": "" if exc is None else f"{type(exc).__name__}: {exc}"[:160]}
                     e.update(_post(self))
                 evs.append(e)
@@ -162,6 +183,15 @@ def install() -> None:
         return
     sansldap._verif_testtrace = True  # type: ignore[attr-defined]
     base = sansldap.LDAPClient.__mro__[1]
+    for n in ("register_auth_credential", "register_control", "register_filter"):
+        orig = base.__dict__[n]
+
+        def reg(self: t.Any, *a: t.Any, _orig: t.Any = orig, **kw: t.Any) -> t.Any:
+            _events(self)
+            _STATE["custom"].add(id(self))
+            return _orig(self, *a, **kw)
+
+        setattr(base, n, functools.wraps(orig)(reg))
     for cls, names in ((base, ("receive", "data_to_send", "unbind")), (sansldap.LDAPClient, tuple(CLIENT_SENDS) + ("receive",)),
                        (sansldap.LDAPServer, tuple(SERVER_SENDS) + ("receive",))):
         for n in names:
@@ -248,6 +278,8 @@ def finish(path: str) -> None:
                     break
         for e in evs:
             e.pop("_options", None)
+            if id(s) in _STATE["custom"] and e["ev"] in ("send", "unbind"):
+                e["custom"] = True  # a session with registered types may also echo them (controls of a response)
         units = _declare(stream, options, tail_valid)
         out.append(evs[0])
         if units:
